@@ -148,14 +148,15 @@ pub struct SemCase {
     pub blobs: u8,
     /// 0 try_close_active_blob + create, 1 close_active_blob_in_background + create, 2 rotation by overflow of an aged blob,
     /// 3 deletion markers into every closed (and already dumped) blob: several re-dumps are pending in ONE dump pass that
-    ///   starts while the permit is held
+    ///   starts while the permit is held,
+    /// 4 as 0, but the owner CLOSES the semaphore instead of holding it (no permit can be had any more): dumps still happen
     pub how: u8,
     pub hold_ms: u16,
 }
 
 fn sem_cases(thorough: bool) -> Vec<SemCase> {
     let mut v = vec![];
-    for how in 0..4u8 {
+    for how in 0..5u8 {
         for hold_ms in if thorough { vec![0u16, 50, 150, 250, 400, 900] } else { vec![0u16, 300, 600] } {
             for blobs in if thorough { vec![1u8, 2, 4] } else { vec![1u8, 3] } {
                 for rt_workers in [2usize, 0] {
@@ -163,6 +164,9 @@ fn sem_cases(thorough: bool) -> Vec<SemCase> {
                         continue;
                     }
                     if how == 3 && blobs < 2 {
+                        continue;
+                    }
+                    if how == 4 && hold_ms != 0 {
                         continue;
                     }
                     // how 3: the deferred dump must not start before all markers are written (it holds the blob list while it waits)
@@ -229,7 +233,13 @@ pub fn run_sem(c: &SemCase, dir: &Path, _findings: &Findings) -> Result<CaseOut,
         }
         // "the other storage" takes the only permit; while it is held this storage's dump task waits for it (holding the
         // storage's read lock), so the harness issues nothing that needs the write lock until the release
-        let permit = sem.clone().acquire_owned().await.expect("semaphore");
+        let permit = if c.how == 4 {
+            // the owner closes its semaphore: every later acquire fails at once
+            sem.close();
+            None
+        } else {
+            Some(sem.clone().acquire_owned().await.expect("semaphore"))
+        };
         match c.how {
             3 => {
                 // one marker into every closed blob (keys 0..2 live in each of them): their indexes are loaded back and one
@@ -242,14 +252,14 @@ pub fn run_sem(c: &SemCase, dir: &Path, _findings: &Findings) -> Result<CaseOut,
                 // let the deferred dump start and run into the held semaphore
                 tokio::time::sleep(Duration::from_millis(320)).await;
             }
-            0 | 1 => {
+            0 | 1 | 4 => {
                 for k in 0..3u8 {
                     let (kb, val, ts) = put(k);
                     if let Err(e) = s.write(&kb, val, ts, None).await {
                         return fail("write/err", format!("{:#}", e), 0, "write");
                     }
                 }
-                if c.how == 0 {
+                if c.how == 0 || c.how == 4 {
                     if let Err(e) = s.try_close_active().await {
                         return fail("close_active/err", format!("{:#}", e), 0, "close");
                     }
@@ -282,7 +292,7 @@ pub fn run_sem(c: &SemCase, dir: &Path, _findings: &Findings) -> Result<CaseOut,
         if let Err(d) = closed_blobs_indexed(s.as_ref(), dir).await {
             return fail("bg/dump-not-completed", format!("dump semaphore held by somebody else for {} ms, then released: {}", c.hold_ms, d), c.blobs as usize, "release");
         }
-        if sem.available_permits() != 1 {
+        if c.how != 4 && sem.available_permits() != 1 {
             return fail("bg/dump-permit-not-returned", format!("{} permits at idle", sem.available_permits()), c.blobs as usize, "release");
         }
         match tokio::time::timeout(Duration::from_secs(120), s.close()).await {
